@@ -293,16 +293,7 @@ def _work(chunk):
     tally = Tally()
     acc = tally.acc
     F = forms()
-    import os
-    if os.environ.get("C31_DEBUG"):
-        import faulthandler
-        import signal
-        faulthandler.register(signal.SIGUSR1, all_threads=True)
     for part, kind, root, fname, length, first in chunk:
-        if os.environ.get("C31_DEBUG"):
-            import sys
-            import time
-            sys.stderr.write("%d %.0f item %r\n" % (os.getpid(), time.time() % 10000, (part, kind, root, fname, length, first)))
         if part == "jail":
             _jail_item(kind, tally)
             continue
